@@ -25,7 +25,7 @@ def meta(tier):
                 '(numeric argument, indirect-register offset, index of an indexed register, numeric_bytecode code) x values '
                 '{0,1,2^(w-1)-1,2^(w-1),2^w-1,2^w,-1,-2^(w-1),-2^(w-1)-1}; (ii) numeric_bytecode min/max grid x values min-1..max+1; '
                 '(iii) numeric enumerations: every key set within {0..4} x values -1..6, as a code enumeration, an argument enumeration, and both at once with different key sets; (iv) address operands / valid_address numerics '
-                'against zones on a grid (incl. redefined GLOBAL, named memory_zone) x values s-1,s,e,e+1; (v) sliced addresses: slice '
+                'against zones on a grid (incl. redefined GLOBAL, named memory_zone) x values s-1,s,e,e+1, written as a number, as a constant and as a constant in parentheses; (v) sliced addresses: slice '
                 'width {4,8,12} x instruction address on both sides of a page boundary x targets in the same / neighbouring pages; (v-b) slice_lsb without match_address_msb: targets inside / beyond the field width from instruction addresses in several pages; '
                 '(vi) relative addresses: (min,max) grid incl. one-sided and absent bounds x offset_from_instruction_end x instruction size {2,3,4} x address x every '
                 'offset min-1..max+1; non-trivial = value on or adjacent to a boundary (all of them are); distinct by construction',
@@ -267,6 +267,10 @@ def shard(acc, tier, idx, n):
                     exp = refenc.encode(ordered)
                 wrap = {'valid-indirect': '[{}]', 'valid-deferred': '[[{}]]'}.get(kind, '{}')
                 one(acc, isa, 'tst ' + wrap.format(G.lit(v)), exp, 'zone', addr=max(glo, 0) + 4, why=f'{v} outside {lo}..{hi}')
+                # the same value written as a constant (a bare symbol, and the symbol in parentheses): a name is checked like a number
+                if v >= 0:
+                    one(acc, isa, 'tst ' + wrap.format('KZV'), exp, 'zone', addr=max(glo, 0) + 4, consts=(('KZV', v),), why=f'KZV = {v} outside {lo}..{hi}')
+                    one(acc, isa, 'tst ' + wrap.format('(KZV)'), exp, 'zone', addr=max(glo, 0) + 4, consts=(('KZV', v),), why=f'(KZV) = {v} outside {lo}..{hi}')
     # ---- (v) sliced addresses --------------------------------------------------------------------------------------
     for w in (4, 8, 12):
         page = 1 << w
